@@ -15,6 +15,7 @@ import (
 	epb "github.com/google/gce-tcb-verifier/proto/endorsement"
 	cpb "github.com/google/go-sev-guest/proto/check"
 	tcpb "github.com/google/go-tdx-guest/proto/checkconfig"
+	"google.golang.org/protobuf/encoding/protowire"
 	"google.golang.org/protobuf/proto"
 
 	"verifharness/fx"
@@ -98,6 +99,9 @@ func runPolicy(m *Material, r polRow) (problems []string, gotErr string, matches
 			bundle = pemBlock("CERTIFICATE", idDER)
 		case "id_author":
 			bundle = append(pemBlock("CERTIFICATE", idDER), pemBlock("CERTIFICATE", authDER)...)
+		case "same_id_author":
+			authDER = idDER
+			bundle = append(pemBlock("CERTIFICATE", idDER), pemBlock("CERTIFICATE", idDER)...)
 		case "three":
 			bundle = append(append(pemBlock("CERTIFICATE", idDER), pemBlock("CERTIFICATE", authDER)...), pemBlock("CERTIFICATE", m.RootCert.Raw)...)
 		case "wrongtype":
@@ -110,6 +114,13 @@ func runPolicy(m *Material, r polRow) (problems []string, gotErr string, matches
 		gs := GoldenSpec{Snp: map[uint32][]byte{2: Meas("p2")}, Svn: 5, Digest: Meas("fw"), Timestamp: time.Date(2025, 2, 1, 0, 0, 0, 0, time.UTC), ClSpec: 1, Cert: m.SignCert.Raw, CaBundle: bundle}
 		e := Endorse(gs.Proto(), m.S)
 		base := sevBase(r)
+		// a base that already trusts keys may trust the endorsement's certificates in the other role
+		if r.Bid {
+			base.TrustedIdKeys = append(base.TrustedIdKeys, m.ForeignCert.Raw)
+		}
+		if r.Bauth {
+			base.TrustedAuthorKeys = append(base.TrustedAuthorKeys, m.SignCert.Raw)
+		}
 		snap := proto.Clone(base).(*cpb.Policy)
 		count := map[string]uint32{"listed": 2, "unlisted": 8, "zero": 0}[r.Count]
 		out, err := gtb.SevPolicy(ctx, e, &gtb.SevPolicyOptions{Base: base, LaunchVmsas: count, Overwrite: r.Ow, AllowUnspecifiedVmsas: r.Unspec})
@@ -151,10 +162,10 @@ func runPolicy(m *Material, r polRow) (problems []string, gotErr string, matches
 		}
 		wantID := append([][]byte{}, base.TrustedIdKeys...)
 		wantAuth := append([][]byte{}, base.TrustedAuthorKeys...)
-		if r.Bundle == "id" || r.Bundle == "id_author" {
+		if r.Bundle == "id" || r.Bundle == "id_author" || r.Bundle == "same_id_author" {
 			wantID = append(wantID, idDER)
 		}
-		if r.Bundle == "id_author" {
+		if r.Bundle == "id_author" || r.Bundle == "same_id_author" {
 			wantAuth = append(wantAuth, authDER)
 		}
 		if !sameList(out.TrustedIdKeys, wantID) || !sameList(out.TrustedAuthorKeys, wantAuth) {
@@ -313,6 +324,48 @@ func RunC17(run *vk.Run) {
 		}
 	})
 	run.AddDrift(drift)
+	// the commands: `sev policy ENDORSEMENT --base FILE` / `tdx policy ENDORSEMENT --base FILE` give what the
+	// library gives for the base the file holds -- every field of it, also fields this build's schema does
+	// not know (a base written with a newer go-sev-guest / go-tdx-guest)
+	{
+		ctx := fx.Ctx(nil, false, false)
+		unknown := protowire.AppendVarint(protowire.AppendTag(nil, 9999, protowire.VarintType), 77)
+		unknown = protowire.AppendBytes(protowire.AppendTag(unknown, 9998, protowire.BytesType), []byte("kept for a newer reader"))
+		gs := GoldenSpec{Snp: map[uint32][]byte{2: Meas("p2")}, Tdx: []*epb.VMTdx_Measurement{{RamGib: 16, Mrtd: Meas("r16")}}, Svn: 5, Digest: Meas("fw"), Timestamp: time.Date(2025, 2, 1, 0, 0, 0, 0, time.UTC), ClSpec: 1, Cert: m.SignCert.Raw,
+			CaBundle: append(pemBlock("CERTIFICATE", m.SignCert.Raw), pemBlock("CERTIFICATE", m.ForeignCert.Raw)...)}
+		e := Endorse(gs.Proto(), m.S)
+		eb, _ := proto.Marshal(e)
+		sevBaseB, _ := proto.Marshal(&cpb.Policy{MinimumGuestSvn: 3, MinimumVersion: "0.0", FamilyId: bytes.Repeat([]byte{0xaa}, 16), TrustedIdKeys: [][]byte{[]byte("existing id key")}})
+		sevBaseB = append(sevBaseB, unknown...)
+		tdxBaseB, _ := proto.Marshal(&tcpb.Policy{TdQuoteBodyPolicy: &tcpb.TDQuoteBodyPolicy{MinimumTeeTcbSvn: bytes.Repeat([]byte{1}, 16)}})
+		tdxBaseB = append(tdxBaseB, unknown...)
+		for _, ow := range []bool{false, true} {
+			args := []string{"sev", "policy", "endo.bin", "--base", "base.bin", "--launch_vmsas", "2", "--out", "out.bin", "--outform", "bin"}
+			if ow {
+				args = append(args, "--overwrite")
+			}
+			out, cerr := RunCLI(map[string][]byte{"endo.bin": eb, "base.bin": sevBaseB}, time.Time{}, nil, args...)
+			base := &cpb.Policy{}
+			_ = proto.Unmarshal(sevBaseB, base)
+			want, werr := gtb.SevPolicy(ctx, e, &gtb.SevPolicyOptions{Base: base, LaunchVmsas: 2, Overwrite: ow})
+			got := &cpb.Policy{}
+			run.Case(fmt.Sprintf("cli-sev-policy-base:%v", ow), true)
+			if cerr != nil || werr != nil || proto.Unmarshal(out["out.bin"], got) != nil || !proto.Equal(got, want) || !bytes.Contains(out["out.bin"], []byte("kept for a newer reader")) {
+				run.Violation("base-fields-lost:sev:command", fmt.Sprintf("`sev policy ENDORSEMENT --base FILE` (overwrite %v) does not give what SevPolicy gives for the base in FILE (command error %v, library error %v): fields of the base are not carried over (the base holds two fields outside this build's schema)", ow, cerr, werr), nil)
+			}
+		}
+		{
+			out, cerr := RunCLI(map[string][]byte{"endo.bin": eb, "base.bin": tdxBaseB}, time.Time{}, nil, "tdx", "policy", "endo.bin", "--base", "base.bin", "--ram_gib", "16", "--out", "out.bin", "--outform", "bin")
+			base := &tcpb.Policy{}
+			_ = proto.Unmarshal(tdxBaseB, base)
+			want, werr := gtb.TdxPolicy(ctx, e, &gtb.TdxPolicyOptions{Base: base, RAMGiB: 16})
+			got := &tcpb.Policy{}
+			run.Case("cli-tdx-policy-base", true)
+			if cerr != nil || werr != nil || proto.Unmarshal(out["out.bin"], got) != nil || !proto.Equal(got, want) || !bytes.Contains(out["out.bin"], []byte("kept for a newer reader")) {
+				run.Violation("base-fields-lost:tdx:command", fmt.Sprintf("`tdx policy ENDORSEMENT --base FILE` does not give what TdxPolicy gives for the base in FILE (command error %v, library error %v): fields of the base are not carried over (the base holds two fields outside this build's schema)", cerr, werr), nil)
+			}
+		}
+	}
 	// concurrent derivations from one shared base under the race detector
 	if bin := os.Getenv("VERIF_RACE_BIN"); bin != "" {
 		cmd := exec.Command(bin, "C17race")
@@ -338,7 +391,7 @@ func RunC17(run *vk.Run) {
 		run.Extra["race_reports_in_repository"] = n
 	}
 	run.Exhaustive = true
-	run.Rule = "every row of Policy.tla (SEV: guest policy / measurement / minimum SVN each unset-same-different, existing id/author keys, 7 CA-bundle shapes, listed/unlisted/zero count, overwrite, allow-unspecified = 9072 rows; TDX: 5 base shapes x RAM listed/unlisted/zero x overwrite) is executed on the real SevPolicy/TdxPolicy; the base is compared with a deep copy taken before the call and the result field by field with base and endorsement"
+	run.Rule = "every row of Policy.tla (SEV: guest policy / measurement / minimum SVN each unset-same-different, existing id/author keys, 8 CA-bundle shapes (incl. one certificate as both ID and author key), listed/unlisted/zero count, overwrite, allow-unspecified; TDX: 5 base shapes x RAM listed/unlisted/zero x overwrite) is executed on the real SevPolicy/TdxPolicy (bases that trust keys also trust the endorsement's certificates in the other role); the base is compared with a deep copy taken before the call and the result field by field with base and endorsement; `sev policy` / `tdx policy --base FILE` must give what the library gives for the base in FILE, unknown fields included"
 }
 
 // PolicyRace derives policies concurrently from one shared base (body of the -race build).
